@@ -47,6 +47,7 @@ type c12State struct {
 	lastOp   string
 	dead     bool
 	fallback bool // the rename failed and the copy fallback opened the target for writing
+	symlink  map[string]bool   // names that are symbolic links (Stat follows them, Lstat does not)
 	noFaults bool              // front-matter harness: no injected failures
 	text     map[string]string // front-matter harness: real bytes of files (source text, what was written)
 }
@@ -103,6 +104,15 @@ func verifOSStat(name string) (fs.FileInfo, error) {
 		return nil, c12ErrNotExist
 	}
 	return c12Info{mode: f.mode}, nil
+}
+
+// verifOSLstat: like Stat, but a symbolic link is described itself (mode 0777 | ModeSymlink), not its target
+func verifOSLstat(name string) (fs.FileInfo, error) {
+	info, err := verifOSStat(name)
+	if err == nil && c12.symlink[name] {
+		return c12Info{mode: 0o777 | uint32(fs.ModeSymlink)}, nil
+	}
+	return info, err
 }
 
 func verifOSMkdir(_ string, _ fs.FileMode) error { return nil }
@@ -296,7 +306,9 @@ func c12Write(f *os.File, ok bool) {
 }
 
 func VerifC12InPlace() {
-	c12 = &c12State{files: map[string]*c12File{}, handles: map[*os.File]string{}, noTrunc: map[*os.File]string{}}
+	c12 = &c12State{files: map[string]*c12File{}, handles: map[*os.File]string{}, noTrunc: map[*os.File]string{}, symlink: map[string]bool{}}
+	// the file operand may be a symbolic link: its permission bits are those of what it points to
+	c12.symlink["t.yml"] = verifConcreteBool(verifBool("targetIsSymlink"))
 	c12.oldMode = uint32(verifIntRange("mode", 0, 0o777))
 	c12.files["t.yml"] = &c12File{content: c12Old, mode: c12.oldMode}
 	c12.crashAt = verifChoice("crashBeforeStep", verifParam("maxsteps", 18)+1) // 0 = no crash
@@ -386,7 +398,7 @@ func verifFileWriteString(f *os.File, s string) (int, error) {
 // file) and the rest (left in the content reader) without losing, duplicating or reordering a byte; the rest is
 // empty or starts at a `---` line; and the printer appends exactly that rest after the results.
 func VerifC12FrontMatter() {
-	c12 = &c12State{files: map[string]*c12File{}, handles: map[*os.File]string{}, noTrunc: map[*os.File]string{}, text: map[string]string{}, noFaults: true, sameFS: true}
+	c12 = &c12State{files: map[string]*c12File{}, handles: map[*os.File]string{}, noTrunc: map[*os.File]string{}, symlink: map[string]bool{}, text: map[string]string{}, noFaults: true, sameFS: true}
 	text := verifStr("text", verifParam("fmlen", 6), "\n~")
 	c12.files["t.md"] = &c12File{content: c12Old, mode: 0o644}
 	c12.text["t.md"] = text
